@@ -16,7 +16,7 @@ use quil_rs::program::type_check::type_check;
 use quil_rs::quil::Quil;
 use quil_rs::Program;
 use qvh::instrgen::{self, Alpha};
-use qvh::lexwire::{all_strings, lex_case, lex_out};
+use qvh::lexwire::{all_strings, lex_case, lex_out, rerender_case};
 use qvh::*;
 use std::str::FromStr;
 
@@ -337,6 +337,7 @@ fn mutate(rng: &mut Rng, s: &str) -> String {
 fn render_case(ctx: &mut Ctx, text: &str) {
     let t = text.to_string();
     ctx.case(tagged("render", vec![st(text)]), move || lex_out(&t));
+    rerender_case(ctx, text);
 }
 
 fn render_alpha() -> Alpha {
@@ -391,6 +392,7 @@ fn run(ctx: &mut Ctx) {
             text.push_str(*rng.pick(SEP));
         }
         lex_case(ctx, &text);
+        rerender_case(ctx, &text);
     }
     // 3. identifiers in every position
     let groups: Vec<&[&str]> = if quick {
